@@ -5,6 +5,7 @@
 package c02
 
 import (
+	"bytes"
 	"crypto/sha256"
 	"encoding/hex"
 	"fmt"
@@ -747,6 +748,17 @@ func (x *runner) violate(j *Job, o outcome, vkind, cmd, diag string) {
 	dclass := ""
 	if diag != "" {
 		dclass = diagClass(diag)
+		// "undefined: OptT" in a package that declares OptNilT: a field of an optional nullable type was re-boxed by the
+		// struct recursion check (checkStructRecursions) with a wrapper nobody emitted - its own root cause, kept apart
+		// from other undefined names
+		if dclass == "undefined/generated-name" && o.pkg != "" {
+			if m := regexp.MustCompile(`undefined: Opt([A-Za-z0-9_]+)`).FindStringSubmatch(diag); m != nil && !strings.HasPrefix(m[1], "Nil") {
+				if src, err := os.ReadFile(filepath.Join(x.mod.Dir, o.pkg, "oas_schemas_gen.go")); err == nil &&
+					bytes.Contains(src, []byte("type OptNil"+m[1]+" struct")) && bytes.Contains(src, []byte("*Opt"+m[1]+" ")) {
+					dclass = "undefined/pointer-to-unemitted-optional-wrapper-beside-optnil"
+				}
+			}
+		}
 	}
 	sig := x.signature(j, vkind, dclass)
 	x.mu.Lock()
